@@ -290,6 +290,13 @@ pub fn run_op(op: &str, args: &[&str]) -> Option<String> {
                 format!("SOME {}{}|{}", s_fq(&af.x()), s_fq(&af.y()), s_g1(&back))
             }
         },
+        // setters, accessors and the curve coefficient: `set_<c>(v)` on a point given by raw coordinates
+        (["g1", "set"], [a, c, v]) => {
+            let mut p = p_g1(a)?;
+            let v = p_fq(v)?;
+            match *c { "x" => p.set_x(v), "y" => p.set_y(v), "z" => p.set_z(v), _ => return None }
+            format!("{}|{}:{}:{}|{}", s_g1(&p), s_fq(&p.x()), s_fq(&p.y()), s_fq(&p.z()), s_fq(&G1::b()))
+        }
         (["g1", "from_slice"], [h]) => ok_pt1(G1::from_slice(&p_bytes(h)?)),
         (["g1", "from_uncompressed"], [h]) => ok_pt1(G1::from_uncompressed(&p_bytes(h)?)),
         (["g1", "from_compressed"], [h]) => ok_pt1(G1::from_compressed(&p_bytes(h)?)),
@@ -318,6 +325,12 @@ pub fn run_op(op: &str, args: &[&str]) -> Option<String> {
                 format!("SOME {}{}|{}", s_fq2(&af.x()), s_fq2(&af.y()), s_g2(&back))
             }
         },
+        (["g2", "set"], [a, c, v]) => {
+            let mut p = p_g2(a)?;
+            let v = p_fq2(v)?;
+            match *c { "x" => p.set_x(v), "y" => p.set_y(v), "z" => p.set_z(v), _ => return None }
+            format!("{}|{}:{}:{}|{}", s_g2(&p), s_fq2(&p.x()), s_fq2(&p.y()), s_fq2(&p.z()), s_fq2(&G2::b()))
+        }
         (["g2", "from_slice"], [h]) => ok_pt2(G2::from_slice(&p_bytes(h)?)),
         (["g2", "from_uncompressed"], [h]) => ok_pt2(G2::from_uncompressed(&p_bytes(h)?)),
         (["g2", "from_compressed"], [h]) => ok_pt2(G2::from_compressed(&p_bytes(h)?)),
